@@ -51,6 +51,11 @@ def run(ctx):
     meths = server_methods(fx)
     for need in ("run", "handle_message", "gossip_multiple", "gossip"):
         if need not in meths:
+            if need == "handle_message" and "run" in meths:
+                # the per-datagram step may have been inlined into the run loop: process_message is then called from `run` itself
+                cgx = callgraph.CallGraph(fx)
+                if any(fx.root_fn(cs.real_caller) == meths["run"]["id"] for cs in cgx.callers_of(roles.process_message["id"], raw=True)):
+                    continue
             raise AnchorLost("server::" + need, "async method of Server not found (have %s)" % sorted(meths))
     r19_1(ctx, rep, meths)
     r19_2(ctx, rep)
@@ -230,6 +235,8 @@ def r19_3(ctx, rep, meths):
     fx = ctx.fx
     n_guards = 0
     for name in ("run", "handle_message", "gossip_multiple", "gossip"):
+        if name not in meths:
+            continue
         co = coroutine_of(fx, meths[name]["id"])
         eng, rows = table(fx, co["id"])
         worst = None
@@ -324,7 +331,8 @@ def r19_5(ctx, rep, roles, meths):
     fx = ctx.fx
     ent = {}
     for name in ("handle_message", "gossip_multiple", "gossip", "run"):
-        ent["server:" + name] = coroutine_of(fx, meths[name]["id"])["id"]
+        if name in meths:
+            ent["server:" + name] = coroutine_of(fx, meths[name]["id"])["id"]
     base = c09.entries(fx, roles)
     ent.update({k: v for k, v in base.items() if k.startswith("udp:") or k.startswith("encode")})
     extra = {
@@ -491,10 +499,15 @@ def r19_9(ctx, rep, roles, meths):
     pm, syn = roles.process_message["id"], roles.create_syn["id"]
     n = 0
     for meth, producer, dest, optional in (("handle_message", pm, "arg1.from_addr", True), ("gossip", syn, "arg1.addr", False)):
-        co = coroutine_of(fx, meths[meth]["id"])
+        inlined = meth not in meths
+        co = coroutine_of(fx, meths["run" if inlined else meth]["id"])
         eng, rows = table(fx, co["id"])
         for row in rows:
-            if row.exit != "return":
+            if inlined:
+                # the step lives in the run loop: every path (loop body or exit) that handles a datagram
+                if not any(e[1] == producer for e in row.calls()) or any(c[0] == "variant" and c[3] and c[2] == "Pending" for c in row.cond[-1:]):
+                    continue
+            elif row.exit != "return":
                 continue
             n += 1
             prod = [e for e in row.calls() if e[1] == producer]
@@ -513,13 +526,22 @@ def r19_9(ctx, rep, roles, meths):
                 if optional:   # Some(reply) unwrapped
                     while payload[0] == "proj":
                         payload = payload[1]
-                ok = to == dest and payload[0] == "call" and payload[1] == producer and "transport" in sym.fmt(a[0])
-                detail = "send(to=%s, msg=%s)" % (to, sym.fmt(msg)[:60])
-            if ok and meth == "handle_message":
+                if inlined:
+                    # source address and message are the two halves of the same received datagram
+                    marg = T.resolve_locals(eng, row.store, prod[0][2][1])
+                    rcv_m = [x for x in T.subterms(marg) if x[0] == "call" and ("Socket::recv" in x[1] or "::recv" in x[1] or "poll" in x[1])]
+                    rcv_a = [x for x in T.subterms(a[1]) if x[0] == "call" and ("Socket::recv" in x[1] or "::recv" in x[1] or "poll" in x[1])]
+                    same = bool(rcv_m) and bool(rcv_a) and rcv_m[0] == rcv_a[0]
+                    halves = any(x[0] == "proj" and x[2] == F("<tuple>", "0") for x in T.subterms(a[1])) and any(x[0] == "proj" and x[2] == F("<tuple>", "1") for x in T.subterms(marg))
+                    ok = same and halves and payload[0] == "call" and payload[1] == producer and "transport" in sym.fmt(a[0])
+                else:
+                    ok = to == dest and payload[0] == "call" and payload[1] == producer and "transport" in sym.fmt(a[0])
+                detail = "send(to=%s, msg=%s)" % (to[:60], sym.fmt(msg)[:60])
+            if ok and meth == "handle_message" and not inlined:
                 ok = sym.fmt(T.resolve_locals(eng, row.store, prod[0][2][1])) == "arg1.message"
             rep.obligation(ok, "C19/R19.9/%s" % meth, "%s: %s" % (meth, detail), where(co, row.site[1]),
                            sample="%s: one %s; %s" % (meth, producer.split("::")[-1], "reply sent to the source iff Some" if optional else "SYN sent to the chosen address"))
-    rep.floor("returning-paths", n, 5)
+    rep.floor("returning-paths", n, 4 if "handle_message" not in meths else 5)
     rep.instance(n)
 
 
